@@ -195,4 +195,73 @@ def wfO (σ : Schema) (O : Oracles) : Bool :=
 
 end Schema
 
+/-! ### the intended strictness (Spec of C08): what an accepted message must satisfy
+
+`specViolations` lists, for a parsed message, every field whose value C08 says must never be accepted:
+an id outside [0, 2^53], a URI outside the *intended* grammar (`specUri`, not the regex), a value that is not of
+the option's intended type.  On today's code the list is non-empty exactly at the findings (F2, id ranges that
+are not checked, `force_reregister: 1`, UNREGISTER's unchecked `forward_for`). -/
+
+def allIdOk : List WVal → Bool
+  | [] => true
+  | .int i :: xs => idOk i && allIdOk xs
+  | _ => false
+
+def specUriOk (specUri : Bool → Bool → Bool → Str → Bool) (fl : UriFlags) : WVal → Bool
+  | .null => fl.allowNone
+  | .str s => specUri fl.strict fl.allowEmpty fl.allowLastEmpty s
+  | _ => false
+
+/-- `none` = fine, `some reason` = must not have been accepted -/
+def OptStep.specViolation (specUri : Bool → Bool → Bool → Str → Bool) (m : Msg) (s : OptStep) : Option Str :=
+  let v := m.get s.field
+  if isDflt s.dflt v then none else
+  match s.ty, v with
+  | .bool, .bool _ => none
+  | .bool, _ => some cs!"type"
+  | .boolLoose, .bool _ => none
+  | .boolLoose, _ => some cs!"type"
+  | .int _, .int i => if s.idLike && !idOk i then some cs!"id-range" else none
+  | .int _, _ => some cs!"type"
+  | .str, .str _ => none
+  | .str, _ => some cs!"type"
+  | .strEnum vals, .str x => if strMem x vals then none else some cs!"type"
+  | .strEnum _, _ => some cs!"type"
+  | .listInt, .list xs => if !allInt xs then some cs!"type" else if s.idLike && !allIdOk xs then some cs!"id-range" else none
+  | .listInt, _ => some cs!"type"
+  | .listStr, .list xs => if allStr xs then none else some cs!"type"
+  | .listStr, _ => some cs!"type"
+  | .dict, .dict _ => none
+  | .dict, .dictNS _ => none
+  | .dict, _ => some cs!"type"
+  | .uri fl, v => if specUriOk specUri fl v then none else some cs!"uri"
+  | .forwardFor _, .list xs => if xs.all ffItemCtorOk then none else some cs!"type"
+  | .forwardFor _, _ => some cs!"type"
+  | .unchecked, v =>
+      (match s.cty with
+       | .strOrNone => if v.isStr then none else some cs!"type"
+       | .dictOrNone => if v.isDict then none else some cs!"type"
+       | _ => none)
+  | .roles _ _, .dict _ => none
+  | .roles _ _, _ => some cs!"type"
+
+def PosStep.specViolation (specUri : Bool → Bool → Bool → Str → Bool) (m : Msg) : PosStep → Option (Str × Str)
+  | .id f => (match m.get f with | .int i => if idOk i then none else some (f, cs!"id-range") | _ => some (f, cs!"type"))
+  | .uri f fl => if specUriOk specUri fl (m.get f) then none else some (f, cs!"uri")
+  | .str f => if (m.get f).isStr then none else some (f, cs!"type")
+  | .extra f => (match m.get f with | .dict _ => none | _ => some (f, cs!"type"))
+  | .intEnum f allowed => (match m.get f with | .int i => if allowed.contains i then none else some (f, cs!"type") | _ => some (f, cs!"type"))
+  | .opts => none
+  | .uriByMatch f _ key _ => if specUriOk specUri (matchFlags (strOf (m.get key))) (m.get f) then none else some (f, cs!"uri")
+
+def Schema.specViolations (σ : Schema) (specUri : Bool → Bool → Bool → Str → Bool) (m : Msg) : List (Str × Str) :=
+  σ.pos.filterMap (PosStep.specViolation specUri m) ++
+  σ.opts.filterMap (fun s => (s.specViolation specUri m).map (fun r => (s.field, r))) ++
+  (match σ.tail with
+   | some _ =>
+       (if (m.get cs!"payload").isNull || (m.get cs!"payload").isBytes then [] else [(cs!"payload", cs!"type")]) ++
+       (if (m.get cs!"args").isNull || (m.get cs!"args").isList then [] else [(cs!"args", cs!"type")]) ++
+       (match m.get cs!"kwargs" with | .null => [] | .dict _ => [] | _ => [(cs!"kwargs", cs!"type")])
+   | none => [])
+
 end Abverif.Wamp
